@@ -31,10 +31,12 @@ package vgirpc
 //
 //@ func stateTokenAad
 //@   property C13
-//@   at call tokenAad assert [prefix] len(arg0) == 17 && arg0[8] == 115 && arg1 == auth
+//@   at call tokenAad assert [hint_prefix] len(arg0) == 17 && arg0[8] == 115 && arg1 == auth
+//@   ensures [kind] len(result) > 17 && result[8] == 115 && result[7] == 46 && result[16] == 0
 //@ func callTokenAad
 //@   property C13
-//@   at call tokenAad assert [prefix] len(arg0) == 16 && arg0[8] == 99 && arg1 == auth
+//@   at call tokenAad assert [hint_prefix] len(arg0) == 16 && arg0[8] == 99 && arg1 == auth
+//@   ensures [kind] len(result) > 16 && result[8] == 99 && result[7] == 46 && result[15] == 0
 
 // The identity under which the call-state cache and the session registry key their entries
 // draws the anonymous / authenticated line exactly where the AAD does.
